@@ -14,13 +14,27 @@ tf = env.tf
 
 WQ = ["quantized_bits(4,0,1)", "quantized_bits(6,2,1,alpha='auto_po2')", "quantized_bits(8,0,1,alpha=2.0)", "quantized_po2(4)",
       "quantized_po2(4,2.0)", "ternary()", "ternary(alpha='auto')", "binary()", "binary(alpha='auto_po2')", "binary(use_01=1,alpha=1.0)",
-      "quantized_linear(6,1,1)", "quantized_linear(4,0,1,alpha='auto')", "stochastic_ternary()", "stochastic_binary()", None]
+      "quantized_linear(6,1,1)", "quantized_linear(4,0,1,alpha='auto')", "stochastic_ternary()", "stochastic_binary()", None,
+      # exponent bounds of the power-of-two scale: min != max, one of them absent
+      "binary(alpha='auto_po2',max_po2_exponent=-3)", "binary(alpha='auto_po2',min_po2_exponent=-4,max_po2_exponent=-2)",
+      "quantized_bits(4,0,1,alpha='auto_po2',min_po2_exponent=-3,max_po2_exponent=-1)", "binary(alpha='auto_po2',min_po2_exponent=1)"]
 AQ = ["quantized_relu(4,2)", "quantized_relu(6,2,negative_slope=0.25)", "quantized_tanh(4)", "quantized_sigmoid(5)", "quantized_bits(8,3,1)",
       "quantized_relu_po2(4)", "quantized_ulaw(6,1)", "quantized_hswish(8,2,1)", "quantized_linear(8,2,1)", "binary()", "ternary()", None, "relu"]
 
 
 def pick(rng, l):
   return l[int(rng.integers(0, len(l)))]
+
+
+_WQ_STATE = {"n": 0, "off": None}
+
+
+def pickw(rng):
+  """kernel quantizers in rotation (random starting point): the few models of the quick tier cannot skip one"""
+  if _WQ_STATE["off"] is None:
+    _WQ_STATE["off"] = int(rng.integers(0, len(WQ)))
+  _WQ_STATE["n"] += 1
+  return WQ[(_WQ_STATE["off"] + _WQ_STATE["n"]) % len(WQ)]
 
 
 # quantizer OBJECTS with options that the string form omits or misplaces: a layer must serialise the object, not its text
@@ -51,17 +65,17 @@ def gen_model(rng, idx):
     for j in range(int(rng.integers(1, 3))):
       t = int(rng.integers(0, 4))
       if t == 3:
-        x = qkeras.QMobileNetSeparableConv2D(int(rng.integers(1, 4)), 3, padding="same", depthwise_quantizer=pick(rng, WQ), pointwise_quantizer=pick(rng, WQ),
+        x = qkeras.QMobileNetSeparableConv2D(int(rng.integers(1, 4)), 3, padding="same", depthwise_quantizer=pickw(rng), pointwise_quantizer=pickw(rng),
                                              bias_quantizer=pick(rng, WQ[:6] + [None]), name=f"mb{idx}_{j}")(x)
       elif t == 0:
-        x = qkeras.QConv2D(int(rng.integers(1, 4)), 3, padding="same", use_bias=bool(rng.integers(0, 2)), kernel_quantizer=pick(rng, WQ),
+        x = qkeras.QConv2D(int(rng.integers(1, 4)), 3, padding="same", use_bias=bool(rng.integers(0, 2)), kernel_quantizer=pickw(rng),
                            bias_quantizer=pick(rng, WQ[:6] + [None]), activation=pick(rng, AQ), name=f"c{idx}_{j}")(x)
       elif t == 1:
-        x = qkeras.QDepthwiseConv2D(3, padding="same", depth_multiplier=int(rng.integers(1, 3)), depthwise_quantizer=pick(rng, WQ),
+        x = qkeras.QDepthwiseConv2D(3, padding="same", depth_multiplier=int(rng.integers(1, 3)), depthwise_quantizer=pickw(rng),
                                     bias_quantizer=pick(rng, WQ[:6] + [None]), activation=pick(rng, AQ), name=f"dw{idx}_{j}")(x)
       else:
-        x = qkeras.QSeparableConv2D(int(rng.integers(1, 4)), 3, padding="same", depthwise_quantizer=pick(rng, WQ),
-                                    pointwise_quantizer=pick(rng, WQ), bias_quantizer=pick(rng, WQ[:6] + [None]), name=f"sp{idx}_{j}")(x)
+        x = qkeras.QSeparableConv2D(int(rng.integers(1, 4)), 3, padding="same", depthwise_quantizer=pickw(rng),
+                                    pointwise_quantizer=pickw(rng), bias_quantizer=pick(rng, WQ[:6] + [None]), name=f"sp{idx}_{j}")(x)
       if rng.integers(0, 2):
         x = qkeras.QActivation(act_arg(rng), name=f"a{idx}_{j}")(x)
     if rng.integers(0, 2):
@@ -73,14 +87,14 @@ def gen_model(rng, idx):
   else:
     inp = Input((10, 3), name=f"i{idx}")
     if rng.integers(0, 3) == 0:
-      x = qkeras.QSeparableConv1D(int(rng.integers(1, 4)), 3, padding=pick(rng, ["valid", "same"]), depthwise_quantizer=pick(rng, WQ),
-                                  pointwise_quantizer=pick(rng, WQ), bias_quantizer=pick(rng, WQ[:6] + [None]), name=f"s1_{idx}")(inp)
+      x = qkeras.QSeparableConv1D(int(rng.integers(1, 4)), 3, padding=pick(rng, ["valid", "same"]), depthwise_quantizer=pickw(rng),
+                                  pointwise_quantizer=pickw(rng), bias_quantizer=pick(rng, WQ[:6] + [None]), name=f"s1_{idx}")(inp)
     else:
-      x = qkeras.QConv1D(int(rng.integers(1, 4)), 3, padding=pick(rng, ["valid", "same", "causal"]), kernel_quantizer=pick(rng, WQ),
+      x = qkeras.QConv1D(int(rng.integers(1, 4)), 3, padding=pick(rng, ["valid", "same", "causal"]), kernel_quantizer=pickw(rng),
                          bias_quantizer=pick(rng, WQ[:6] + [None]), activation=pick(rng, AQ), name=f"c1_{idx}")(inp)
     x = L.Flatten(name=f"f{idx}")(x)
   for j in range(int(rng.integers(1, 3))):
-    x = qkeras.QDense(int(rng.integers(1, 5)), use_bias=bool(rng.integers(0, 2)), kernel_quantizer=pick(rng, WQ),
+    x = qkeras.QDense(int(rng.integers(1, 5)), use_bias=bool(rng.integers(0, 2)), kernel_quantizer=pickw(rng),
                       bias_quantizer=pick(rng, WQ[:6] + [None]), activation=pick(rng, AQ), name=f"d{idx}_{j}")(x)
     if rng.integers(0, 3) == 0:
       x = qkeras.QActivation(act_arg(rng), name=f"ad{idx}_{j}")(x)
